@@ -243,7 +243,7 @@ def run_tie(ck, tf, n_hist, profile, configs=CONFIGS, corpus=(), kwargs_for=None
     # every scenario this check prefers is run ONCE IN EVERY CONFIGURATION, in ADDITION to the random histories (appended after them, so that the random
     # histories - and what they are known to catch - stay what they were): what a check catches through a scenario does not depend on how the
     # scenario list or the random stream happens to be laid out
-    upref = list(dict.fromkeys(profile.get("scenario_pref") or [])) if not profile.get("scenario_force") else []
+    upref = list(dict.fromkeys((profile.get("scenario_pref") or []) + (profile.get("scenario_also") or []))) if not profile.get("scenario_force") else []
     # (first the preferred ones, then every other scenario there is: all of them once per configuration; the second pass - CSV with inserts left in
     # the handle's buffer, flush_on_insert=False - for the preferred ones only)
     uall = (upref + [x for x in dbgen.SCENARIOS if x not in upref]) if upref else []
